@@ -343,6 +343,18 @@ def run_case(case):
                         fh.write(content[:len(content) // 2])
                     damaged = "cut to half its length"
                 obs["damaged_source_runs"] = obs.get("damaged_source_runs", 0) + 1
+            if storage != "sharded" and case["vseed"] % 8 == 3 and len(info["scales"]) > 1 \
+                    and not damaged:
+                # the directory already holds the LAST chunk of the next level, with stale
+                # voxels (a partial copy, an interrupted earlier run): the level is computed
+                # in full all the same
+                s1 = info["scales"][1]
+                last = list(_chunks(s1))[-1]
+                stale = np.full((nc, last[5] - last[4], last[3] - last[2], last[1] - last[0]),
+                                3 if dt.kind != "f" else 3.5, dtype=dt)
+                pio.write_chunk(stale, s1["key"], last)
+                obs["runs_over_a_partly_present_level"] = obs.get(
+                    "runs_over_a_partly_present_level", 0) + 1
             tr = tracer.Trace()
             tracer.trace_io(pio, tr)
             ds = pipeline_downscaler()
@@ -525,6 +537,7 @@ def gates(obs, tier):
             "default_chunk_size_three_scales", 0) > 0,
         "downscale_contract_evaluated": ce.get("downscale", 0) > 1000,
         "damaged_source_scales": obs.get("damaged_source_runs", 0) > 5,
+        "runs_over_a_partly_present_level": obs.get("runs_over_a_partly_present_level", 0) > 5,
         "float_volumes_with_nan_voxels": obs.get("volumes_with_nan_voxels", 0) > 2,
         "downscale_contract_evaluated_under_the_repository_tests": obs.get(
             "repo_tests_contract_evaluations", {}).get("downscale", 0) > 0,
